@@ -46,8 +46,10 @@ func (n *Number) Construct(params []r.Element) (r.Element, error) {
 		return nil, err
 	}
 
+	// a NEW number with that value (not the argument itself: in-place methods on what
+	// 新建 yields must not change the variable the argument was read from)
 	p0 := params[0].(*Number)
-	return p0, nil
+	return NewNumber(p0.value), nil
 }
 
 // GetValue -
